@@ -9,6 +9,7 @@ CONSTANTS
   DevFlushSkipsLast = TRUE
   DevResizeKeepsOldGdt = FALSE
   DevResizeMovesSoleBackup = FALSE
+  DevBackupSearchIgnoresSs2 = FALSE
 INVARIANT TypeOK
 INVARIANT InvCurrent
 INVARIANT InvBackupSet
